@@ -87,6 +87,25 @@ def gen_cases(ctx, corpus, quick):
         if rng.chance(1, 2):
             b = bytes([rng.below(4), rng.choice([1, 2, 4, 0x0a, 0x0b, 0x0f, 0x10, 0x11, 0x12]), rng.choice([3, 106, 4]), 0]) + b
         cases.append((cc.w2x_line(b, **opts()), "random"))
+    # grammar stream: documents generated from the WBXML grammar over every language's tables (the C04 generators),
+    # well-formed and not, plus their field corruptions — here under all option tuples and on the sanitizer harness
+    try:
+        from vlib import gen as _gen, parser_gen as pg, parser_streams as ps
+        T = pg.Tables(_gen.gen_tables())
+        gdocs = [ps.doc_case(x, "g") for x in pg.systematic_docs(T)]
+        gdocs += [ps.doc_case(x, "g") for x in ps.grammar_docs(ctx.seed, T, 6 if quick else 80, stream=140)]
+        gdocs += [ps.doc_case(x, "g") for x in ps.grammar_docs(ctx.seed, T, 3 if quick else 40, stream=141, wf=False)]
+        for c in gdocs:
+            o = opts()
+            if c["forced"]:
+                o["lang"] = c["forced"]
+            if c["meta"]:
+                o["charset"] = c["meta"]
+            cases.append((cc.w2x_line(c["bytes"], **o), "grammar"))
+            if rng.chance(1, 3) and c["bytes"]:
+                cases.append((cc.w2x_line(cc.mutate(rng, c["bytes"]), **o), "grammar-mutated"))
+    except ImportError:
+        pass
     # nesting at the limit, width, string-table blow-up, indentation products around 256
     L = 1000
     for n in (L - 1, L, L + 1, L + 2, 5000, 60000):
